@@ -16,7 +16,7 @@ func isRepoPkg(path string) bool {
 }
 
 var inertPkgs = []string{
-	"github.com/rs/zerolog", "github.com/prometheus/", "go.opentelemetry.io/", "log", "github.com/ipfs/go-log",
+	"github.com/rs/zerolog", "github.com/prometheus/", "go.opentelemetry.io/", "log", "github.com/ipfs/go-log", "sync",
 	"github.com/shutter-network/rolling-shutter/rolling-shutter/medley/tracing",
 	"github.com/shutter-network/rolling-shutter/rolling-shutter/trace",
 }
@@ -109,7 +109,9 @@ func (fr *Frame) callValues(x ssa.Value, cc *ssa.CallCommon, fnv Value, args []V
 			u.unsupportedf("invoke on %T", fnv)
 			return fr.havocCall(cc.Method.FullName(), resT, args, st, pc)
 		}
-		u.oblige(fr, "nil-deref", pos, "", pc, Ne(recv.Tag, IntLit(0)))
+		if !isInertPkg(pkgOfType(cc.Value.Type())) {
+			u.oblige(fr, "nil-deref", pos, "", pc, Ne(recv.Tag, IntLit(0)))
+		}
 		if id, isLit := litVal(recv.Tag); isLit && id.Sign() > 0 {
 			dt := u.m.tidTyp[id.Int64()]
 			if sel := u.eng.prog.MethodSets.MethodSet(dt).Lookup(cc.Method.Pkg(), cc.Method.Name()); sel != nil {
@@ -179,6 +181,17 @@ func (fr *Frame) callFunction(fn *ssa.Function, bindings []Value, args []Value, 
 	}
 	if sp := u.eng.specs.Funcs[full]; sp != nil {
 		return fr.applySpec(sp, fn, full, args, fn.Signature, st, pc, pos, resT, true)
+	}
+	// 2b. generated database layer (sqlc): opaque, no effect on the Go heap (A-sql)
+	if isRepoPkg(pp) && fn.Pos().IsValid() && strings.HasSuffix(u.eng.prog.Fset.Position(fn.Pos()).Filename, ".sqlc.gen.go") && fn.Signature.Recv() != nil {
+		u.extUsed["db:"+shortFn(full)] = true
+		na := u.c.Fresh("alloc", SInt)
+		u.c.Assume(Ge(na, st.alloc))
+		st.alloc = na
+		if p, ok := args[0].(PtrV); ok {
+			u.oblige(fr, "nil-deref", pos, "", pc, Ne(p.Base, IntLit(0)))
+		}
+		return u.m.FreshValue(st, "db_"+fn.Name(), resT)
 	}
 	// 3. inline repo functions (and closures)
 	if (isRepoPkg(pp) || fn.Parent() != nil && isRepoPkg(fnPkgPath(fn.Parent()))) && len(fn.Blocks) > 0 && !isInertPkg(pp) {
